@@ -188,8 +188,10 @@ def run(repo: Repo, rep: Report, tier: str) -> None:
 
     check_tables(repo, rep, pm, sp)
     check_wrappers(repo, rep, pm)
-    from .c01_prims import check_primitive_pairs
+    from .c01_prims import check_primitive_pairs, check_fresh_per_iteration, check_variant_selection
     check_primitive_pairs(repo, rep, pm)
+    check_fresh_per_iteration(repo, rep)
+    check_variant_selection(repo, rep)
 
 
 def enc_offsets(got, rows):
